@@ -143,4 +143,10 @@ SrvInOrder ==
   LET idx == {i \in DOMAIN readStream : readStream[i].id = "srv"} IN
   /\ Cardinality(idx) = srvSent
   /\ \A i, j \in idx : i < j => readStream[i].n < readStream[j].n
+
+\* the legacy SSE event stream implements Pipe for server-initiated messages: sent = the messages
+\* the server put on the event stream, delivered = those among what reached the read stream
+SrvItems(q) == SelectSeq(q, LAMBDA it : it.id = "srv")
+PipeOfSse == INSTANCE Pipe WITH sent <- [i \in 1..srvSent |-> [id |-> "srv", src |-> "srv", n |-> i]], delivered <- SrvItems(readStream)
+ImplementsPipe == PipeOfSse!Spec
 =============================================================================
